@@ -13,6 +13,13 @@ mod state;
 mod pass;
 mod tokenize;
 
+#[cfg(any(kani, mamba_verif))]
+pub use self::pass::pass as verif_docstring_pass;
+#[cfg(any(kani, mamba_verif))]
+pub use self::state::State as VerifState;
+#[cfg(any(kani, mamba_verif))]
+pub use self::tokenize::{into_tokens as verif_into_tokens, verif_as_op_or_id};
+
 /// Convert a given string to a sequence of
 /// [TokenPos](mamba::lexer::token::TokenPos), each containing a
 /// [Token](mamba::lexer::token::Token), in addition to line number and
